@@ -216,6 +216,10 @@ def check_block_types(F, res, emits, emit_self):
                     if got is None:
                         res.bad(tag + '/ir-type', 'cannot read the signature of the IR block type %s' % show(ty))
                         continue
+                    if bk != 'FuncType' and not (ty[0] == 'ctor' and ty[2] == 'Simple'):
+                        res.bad(tag + '/form', '%s: a block type written in the compact MVP form (%s) becomes %s in the IR and '
+                                'would be re-emitted as a type index (multi-value encoding)' % (opname, bk, show(ty)))
+                        continue
                     if not same_sig(got, want):
                         res.bad(tag + '/ir-signature',
                                 '%s with block type %s: the IR sequence type %s denotes %s, the input denotes %s'
